@@ -13,30 +13,38 @@ cxx = False
 fixed_lines = 0
 lean_modules = ["Driver.Convert"]
 rule = ("ops: 'c val|vval|consume|argv src tgt value' = one conversion through mpt_data_converter(src) / mpt_value_convert / mpt_iterator_consume / a variadic call (mpt_process_vararg, mpt_value_argv), performed with "
-        "and without destination; 'c sweep src tgt lo hi' = the same for every integer of the range, summarised (verdict "
+        "and without destination (tgt may be 'l' = long); 'c null src tgt' = the converter with a NULL source; 'c skip' / 'c consume-none' = the type-0 and no-value branches of mpt_iterator_consume; "
+        "'c sweep src tgt lo hi' = the same for every integer of the range, summarised (verdict "
         "runs, inexact results, query-mode differences); 'c text fn tgt hex' = numeral text through mpt_convert_number / "
-        "mpt_convert_string / mpt_c[u]intN; 'c ftext' = the same for f/d/e targets; 'c fpoint val|text' = mpt_fpoint_set (a consumer of mpt_iterator_consume with target 'f') from typed values / a numeral word. Stream 1 (exhaustive): every value of every "
+        "mpt_convert_string / mpt_c[u]intN (fn cint) / mpt_cchar..mpt_culong (fn cnat); 'c ftext' = the same for f/d/e targets, the model side running its decimal strtod model (oracle word for hex/inf/nan); "
+        "'c fpoint val|text' = mpt_fpoint_set (a consumer of mpt_iterator_consume with target 'f') from typed values / a numeral word. Stream 1 (exhaustive): every value of every "
         "8/16-bit source type (c b y n q) x all 12 targets, both modes. Stream 2: 32/64-bit and floating sources at every "
         "target limit +-2, powers of two +-1, float format limits; numerals = sign x prefix x magnitude at each limit +-1, "
-        "2^64+-1, 30 digits, leading space, garbage suffix. Stream 3: random values/numerals. non-trivial = a script in which "
+        "2^64+-1, 30 digits, leading space, garbage suffix. Stream 3: random values/numerals. Ops whose floating target cannot hold the source exactly "
+        "(known finding c_ne_s:rounded) are generated into scripts of their own. non-trivial = a script in which "
         "the real code both accepted and refused (a range limit or a malformed/valid numeral pair was straddled), counted per "
         "distinct script")
 assumptions = [
     "LP64 x86-64 ABI: plain char is signed, long double is the x87 80-bit format in 16 bytes; integer narrowing wraps",
-    "hardware/compiler integer->float and float->float conversions round to nearest, ties to even (modelled by Spec/Float.lean)",
+    "hardware/compiler integer->float and float->float conversions round to nearest, ties to even (modelled by Spec/Float.lean `round`; "
+    "checked per op against the real code and against the exact rational oracle of vlib/props/c07.py)",
     "glibc strtoimax/strtoumax follow the modelled grammar (C locale, bases 0/8/10/16, saturation with ERANGE); "
     "isspace/isgraph are the C-locale tables, undefined outside 0..255",
-    "strtof/strtod/strtold are not modelled: the theorem about text->float takes their result as an oracle that obeys "
-    "'overflow => infinity and ERANGE'; the values are checked differentially against an exact rational oracle computed in "
-    "vlib/props/c07.py (longest numeral prefix, round to nearest-even; glibc 2.36 misrounds inexact hexadecimal numerals in the "
+    "strtof/strtod/strtold on decimal text behave as the model strtoDec (Impl/Convert.lean): longest prefix "
+    "ws* [+-]? (D+[.D*]|.D+) ([eE][+-]?D+)?, value = correctly rounded (nearest-even) value of the number, infinity and ERANGE on overflow; "
+    "the driver runs this model against the real libc on every decimal ftext op and against the rational oracle. Hexadecimal numerals, "
+    "inf/infinity and nan are not modelled: for those the libc result is taken from the oracle word and only the theorems that hold "
+    "for every libc behaviour (text_float_total, text_float_no_saturation) apply (glibc 2.36 misrounds inexact hexadecimal numerals in the "
     "subnormal range, such numerals are not generated)",
     "isspace/isgraph are called with plain char in the text functions: bytes above 0x7f are negative arguments, which glibc's "
     "tables cover (neither blank nor printable)",
-    "NaN sources are limited to the default quiet NaN; float->integer conversions are refused by the code (BadType) and only sampled",
+    "NaN sources are limited to the default quiet NaN",
 ]
 trusted = [
     "translate/cextract.py (clang-14 JSON AST -> Generated/ConvInt.lean and Generated/ConvText.lean, closed grammar, regenerated every run)",
-    "model of glibc strtoimax/strtoumax and hand model of mpt_convert_string / the 'c' branch of mpt_convert_number in MptModel/Impl/Convert.lean, tied by harness/drv_convert.c",
+    "models of glibc strtoimax/strtoumax and of strtof/strtod/strtold on decimal text, hand models of mpt_value_convert / mpt_iterator_consume / "
+    "mpt_convert_string / the 'c' branch of mpt_convert_number / mpt_fpoint_set in MptModel/Impl/Convert.lean (evaluator semantics of the "
+    "generated tables included), tied by harness/drv_convert.c",
 ]
 
 TRANSLATE = os.path.join(build.VERIF, "translate")
